@@ -2641,7 +2641,9 @@ def distributed_shampoo(
     new_statistics = [[]] * len(state.statistics)
     w1 = beta2
     w2 = jnp.where(beta2 == 1.0, beta2, 1.0 - beta2)
-    new_avg_grad = optax.MaskedNode()
+    # Carry the stored value: it is a MaskedNode unless gradient averaging is
+    # on, and must keep its layout for parameters that skip preconditioning.
+    new_avg_grad = state.avg_grad
     if not _skip_preconditioning(param):
 
       if frequent_directions and average_grad:
